@@ -113,7 +113,7 @@ fn main() {
         print(&out, &[]);
         return;
     }
-    if harness == "c05_next" || harness == "c05_more" || harness == "c05_call" {
+    if ["c05_next", "c05_more", "c05_call", "c07_upgrade", "c04_oneway"].contains(&harness.as_str()) {
         let out = std::panic::catch_unwind(|| r_c07::client_iter(&[])).unwrap_or(Outcome {
             reproduced: true,
             role: "more-iteration".into(),
